@@ -912,6 +912,51 @@ fn kernel_check(i: Impl, a: &Addr, f: &mut Failures, stats: &mut Stats) -> &'sta
     }
     drop(fd);
     unlink(a);
+    // (4) Unix: what recvmsg reports as the address of a datagram's SENDER (0 bytes when the sender
+    // is not bound: the contract `kernel_len_recv` of the model), and what a10's `init` makes of it.
+    if domain == libc::AF_UNIX {
+        let (Some(rx), Some(tx)) = (socket(domain), socket(domain)) else { return "kernel:socket-unavailable" };
+        static RX_SEQ: std::sync::atomic::AtomicUsize = std::sync::atomic::AtomicUsize::new(0);
+        let rx_name = format!("\0a10h-c16-rx-{}-{}", std::process::id(), RX_SEQ.fetch_add(1, std::sync::atomic::Ordering::SeqCst));
+        let mut rx_wire = vec![1u8, 0];
+        rx_wire.extend_from_slice(rx_name.as_bytes());
+        unlink(a);
+        let sender_ok = matches!(a, Addr::Unnamed) || raw_bind(&tx, &wire(a));
+        if raw_bind(&rx, &rx_wire) && sender_ok {
+            let sent = unsafe { libc::sendto(tx.0, b"x".as_ptr().cast(), 1, 0, rx_wire.as_ptr().cast(), rx_wire.len() as u32) };
+            let mut name = [0x55u8; 256];
+            let mut data = [0u8; 8];
+            let mut iov = libc::iovec { iov_base: data.as_mut_ptr().cast(), iov_len: 8 };
+            let mut msg: libc::msghdr = unsafe { std::mem::zeroed() };
+            msg.msg_name = name.as_mut_ptr().cast();
+            msg.msg_namelen = 256;
+            msg.msg_iov = &raw mut iov;
+            msg.msg_iovlen = 1;
+            let got = if sent == 1 { unsafe { libc::recvmsg(rx.0, &raw mut msg, libc::MSG_DONTWAIT) } } else { -1 };
+            if got == 1 {
+                let want = if matches!(a, Addr::Unnamed) { 0 } else { kernel_len(a) };
+                if msg.msg_namelen == want {
+                    count("recvmsg_sender_length_as_in_the_model");
+                } else {
+                    count("recvmsg_sender_length_differs");
+                    f.push(format!("real kernel: recvmsg reports {} bytes for the sender {} (the model's kernel_len_recv says {want})", msg.msg_namelen, show(&Some(a.clone()))), None);
+                }
+                let n = msg.msg_namelen as usize;
+                let back: Option<Addr> = dispatch!(Impl::Unix, receive(&name[..n.min(110)], msg.msg_namelen, 0x55));
+                if back.as_ref() == Some(a) {
+                    count("a10_init_of_recvmsg_sender_agrees");
+                } else {
+                    count("a10_init_of_recvmsg_sender_differs");
+                    f.push(format!("real kernel: the sender {} of a datagram, as recvmsg reports it ({} bytes), is read by a10 as {}", show(&Some(a.clone())), msg.msg_namelen, show(&back)), None);
+                }
+            } else {
+                count("recvmsg_probe_not_delivered");
+            }
+        }
+        drop(tx);
+        drop(rx);
+        unlink(a);
+    }
     "kernel:checked"
 }
 
